@@ -597,6 +597,8 @@ def judge(v, obs, out, rep):
     if "to_any" in obs:
         out.violation("C13:to_any:%s" % sig, "Any::new failed: %s" % obs["to_any"]["err"][:100], rep)
         return
+    if obs.get("any_to_any") and not obs["any_to_any"]["equal"]:
+        out.violation("C13:any-to-any:%s" % sig, "the dynamic form of the value viewed as another dynamic value: %s" % str(obs["any_to_any"].get("err") or "a different value")[:120], rep)
     if not obs["roundtrip"]["equal"]:
         out.violation("C13:roundtrip:%s" % sig, "value -> Any -> value gives %s" % str(obs["roundtrip"]["back"])[:140], rep)
     if not obs["same_json"]["same"]:
